@@ -8,26 +8,26 @@ import (
 
 // DSLOpts tunes the "dsl"/"json" profiles used by the transformer properties.
 type DSLOpts struct {
-	Rich       bool // identifiers from every lexer shape incl. keywords
-	JSONOnly   bool // "json" profile: `this` anywhere and repeated, single-child operators
-	MaxTypes   int  // default 4
-	MaxRels    int  // default 4
-	MaxDepth   int  // default 3 (operator nesting)
-	Conditions bool
-	MultiLine  bool // allow multi-line condition expressions
+	Rich        bool // identifiers from every lexer shape incl. keywords
+	JSONOnly    bool // "json" profile: `this` anywhere and repeated, single-child operators
+	MaxTypes    int  // default 4
+	MaxRels     int  // default 4
+	MaxDepth    int  // default 3 (operator nesting)
+	Conditions  bool
+	MultiLine   bool // allow multi-line condition expressions
 	RestrNoThis bool // json profile: restrictions on relations without `this`
 }
 
 var ParamScalars = []string{"bool", "string", "int", "uint", "double", "duration", "timestamp", "ipaddress"}
 
 type dslCtx struct {
-	t      *rapid.T
-	o      DSLOpts
-	types  []string
-	rels   []string // relation names of the current type
-	conds  []string
-	nThis  int
-	maxD   int
+	t     *rapid.T
+	o     DSLOpts
+	types []string
+	rels  []string // relation names of the current type
+	conds []string
+	nThis int
+	maxD  int
 }
 
 // DSLModel draws a model for the transformer properties (plain, non-modular).
